@@ -647,6 +647,17 @@ def replay_partner(subset, ql):
                         f'#[educe({tl})]\npub struct Ty(#[educe({FA[ta]}, {FA[tb]})] u8, u8);',
                         f'#[educe({tl})]\npub enum Ty {{ {dm}A(#[educe({FA[ta]}, {FA[tb]})] u8, u8), B {{ #[educe({FA[ta]})] #[educe({FA[tb]})] x: u8, y: u8 }} }}'):
                 reqs.append(_Raw(f'p{len(reqs)}', src))
+    # a trait that is compiled out, named on a field / variant of a type that educes an enabled trait: refused by both builds (as
+    # unsupported under the subset, as not used under all features), never accepted by one of them
+    for ta in subset:
+        if ta not in FA:
+            continue
+        for tx in FEATURES:
+            if tx in subset or tx not in FA:
+                continue
+            tl = 'Into(u8)' if ta == 'Into' else ta
+            reqs.append(_Raw(f'p{len(reqs)}', f'#[educe({tl})]\npub struct Ty {{ #[educe({FA[ta]})] #[educe({FA[tx]})] x: u8, y: u8 }}'))
+            reqs.append(_Raw(f'p{len(reqs)}', f'#[educe({tl})]\npub enum Ty {{ A(#[educe({FA[tx]}, {FA[ta]})] u8, u8), B }}'))
     if 'PartialEq' in subset and 'Eq' in subset:
         for tb in subset:
             if tb in FA and tb != 'PartialEq':
@@ -656,7 +667,9 @@ def replay_partner(subset, ql):
     for r in reqs:
         x, y = a.get(r.rid, {}), b.get(r.rid, {})
         if 'impls' not in y:
-            continue       # the full build refuses the request: nothing to compare
+            if 'impls' in x:
+                diffs.append((r.source(with_derive=False), sorted(i['tokens'] for i in x['impls']), ['refused by the all-features build: ' + str(y.get('error', 'panic'))]))
+            continue       # the full build refuses the request: nothing more to compare
         tx = sorted(i['tokens'] for i in x.get('impls', [])) if 'impls' in x else [x.get('error', 'panic')]
         ty = sorted(i['tokens'] for i in y['impls'])
         if tx != ty:
